@@ -212,6 +212,9 @@ class QuicStreamSender:
         except IndexError:
             if self._pending_eof:
                 # FIN only
+                if max_size < 0:
+                    # there is no room, even for an empty frame
+                    return None
                 self._pending_eof = False
                 return QuicStreamFrame(fin=True, offset=self._buffer_fin)
 
